@@ -36,6 +36,12 @@ def make_net(seed, idx, stratum):
         return gen_chan.gen_network(rng, n_fibers=rng.randint(3, 6), n_chans=rng.randint(1, 3),
                                     max_ops=rng.choice([4, 8, 12]), srsw=False, allow_close=False,
                                     nested_launch=rng.random() < 0.3)
+    if stratum == 'pool':
+        return gen_chan.gen_pool(rng)
+    if stratum == 'pipeline':
+        return gen_chan.gen_pipeline(rng)
+    if stratum == 'nested':
+        return gen_chan.gen_nested(rng)
     raise ValueError(stratum)
 
 
